@@ -40,6 +40,20 @@ Definition edge_key_prefix (g e : bytes) := join [tag_e; g; e; []].
 Definition src_edge_prefix (g v : bytes) := join [tag_s; g; v; []].
 Definition dst_edge_prefix (g v : bytes) := join [tag_d; g; v; []].
 
+(* ---------- consistency of a set of keys (the crash clause of C04, evaluated on the keys of a real store) ----------
+   every by-source and by-destination entry names an edge record that exists, and every edge record has both entries *)
+Definition has_key (ks : list bytes) (k : bytes) : bool := existsb (beqb k) ks.
+Definition key_consistent (ks : list bytes) (k : bytes) : bool :=
+  match split0 k with
+  | [t; g; a; b; c; l; _] =>
+      if beqb t tag_e then has_key ks (src_key g b c a l) && has_key ks (dst_key g b c a l)      (* e|g|id|src|dst|label *)
+      else if beqb t tag_s then has_key ks (edge_key g c a b l)                                  (* s|g|src|dst|id|label *)
+      else if beqb t tag_d then has_key ks (edge_key g c b a l)                                  (* d|g|dst|src|id|label *)
+      else true
+  | _ => true
+  end.
+Definition keys_consistent (ks : list bytes) : bool := forallb (key_consistent ks) ks.
+
 (* validation (gripql/util.go, after the NUL fix and the control-character / backtick fix) *)
 Definition forbidden : bytes :=   (* the punctuation list of gripql/util.go:validate, as byte values *)
   [33;64;35;36;37;94;38;42;40;41;43;61;123;125;91;93;32;58;59;34;39;44;46;60;62;63;47;92;124;126;96]%N.
